@@ -1563,7 +1563,9 @@ def c15_cases(seed, tier):
     for i in range(n):
         s = (seed * 2654435761 + i * 97) & 0x7FFFFFFF
         prof = [{"declare": 0.6, "reads": 0.0, "random": 0.0, "maxdepth": 3, "pC": 0.15, "pX": 0.1, "wlet": 0.25},
-                {"declare": 0.5, "reads": 0.5, "random": 0.0, "maxdepth": 2, "pC": 0.1, "echo": 1.0},
+                ({"declare": 0.5, "reads": 0.5, "random": 0.0, "maxdepth": 2, "pC": 0.1, "echo": 1.0} if i % 10 != 1 else
+                 # reads of bidirectional pins that the device leaves floating (Z) or undefined (X): an error item, the same in every run
+                 {"declare": 0.3, "reads": 0.8, "random": 0.0, "maxdepth": 2, "n_bidir": 2, "pZX": 0.5, "pZXread": 0.6, "full_layout": True}),
                 {"declare": 0.0, "reads": 0.0, "random": 0.0, "maxdepth": 4, "pC": 0.1, "pX": 0.15, "wlet": 0.3, "pbits": 0.1},
                 # variables and loop counters named like outputs the driver supplies, no reads at all: static must not care
                 {"declare": 0.0, "reads": 0.0, "shadow_out": 0.8, "scope_names": 0.9, "maxdepth": 3, "wlet": 0.4, "full_layout": True, "echo": 1.0},
@@ -2949,7 +2951,9 @@ def c08_algebra(seed, tier):
              (1 << 62, 2), ((1 << 62) + 1, 4), (-(1 << 62), 3), (3, MIN64), (7, MAXI), (1 << 32, 1 << 31), ((1 << 31) - 1, 1 << 33), (-7, 2), (7, -2), (-7, -2), (4, 64), (4, 65), (9, 63)]
     if tier == "quick":
         rng = random.Random(seed ^ 0xA18)
-        pairs = pairs[:6] + rng.sample(pairs[6:], 10)
+        always = [p_ for p_ in pairs if MIN64 in p_ or MAXI in p_]
+        rest = [p_ for p_ in pairs if p_ not in always]
+        pairs = always + rest[:4] + rng.sample(rest[4:], 5)
     sigs = [{"name": "A", "typ": "I", "bits": 1, "default": "0"}, {"name": "Q", "typ": "O", "bits": 8, "default": "-"}]
     cases = []
     for k, (xv, yv) in enumerate(pairs):
